@@ -79,6 +79,15 @@ def cases(tier, seed):
                 c = dict(base)
                 c.update({'prec': prec, 'max_full': max_full, 'ls': ls, 'x0': 'near', 'sidx': 0})
                 cs.append(c)
+    # directed: right-hand sides that are (numerically) orthogonal to the default initial guess (all ones) along one mode - e.g. a zero-mean factor
+    for i in range(36 if not T else 300):
+        cls = ['dd', 'lap', 'spd'][i % 3]
+        d = rng.choice([2, 3, 3, 4])
+        N = [rng.randint(3, 7) for _ in range(d)]
+        confs = [(p_, mf_, ls_) for p_ in (None, 'c', 'r') for mf_ in (500, 0) for ls_ in (1, 2) if not (mf_ == 500 and ls_ == 2 and p_ is not None)]
+        prec, max_full, ls = confs[i % len(confs)]
+        cs.append({'gen': 'solve', 'cls': cls, 'N': N, 'RB': gens.rank_profile(rng, d, 'rand', 2), 'Rb': [1] * (d + 1), 'rhs': 'zero-mean-factor', 'zm_mode': [d - 1, 0, d // 2][(i // 3) % 3], 'cfac': 10 ** rng.uniform(-0.3, 1.5),
+                   'shift': 0.0, 'band': -1, 'eps': 10 ** rng.uniform(-9, -4), 'vseed': rng.randrange(2 ** 40), 'prec': prec, 'max_full': max_full, 'ls': ls, 'x0': 'none', 'sidx': 0})
     # directed: larger Laplacians at tight eps with forced iterative local solves - local Krylov solves that need restarts
     big = [[12, 12, 12], [8, 12, 12]] if not T else [[12, 12, 12], [8, 12, 12], [12, 12, 6], [10, 12, 12], [6, 6, 6, 6]]
     for N in big:
@@ -154,6 +163,10 @@ def build_system(case, ctx, g):
         xt = gens.make_tt(N, [1] + [min(2, r) for r in case['Rb'][1:-1]] + [1], dt, 'gauss', g)
         b = ctx.call('TTM@TT', lambda a, x: a @ x, A, xt)
         case['_xt'] = xt
+    elif case['rhs'] == 'zero-mean-factor':
+        fs = [gens.values([n_], dt, 'gauss', g) for n_ in N]
+        fs[case['zm_mode']] = fs[case['zm_mode']] - fs[case['zm_mode']].mean()
+        b = torchtt.rank1TT(fs)
     else:
         b = gens.make_tt(N, case['Rb'], dt, 'gauss', g)
     if layout in ('permuted-views', 't().t()'):
@@ -205,6 +218,8 @@ def run_case(case, ctx):
     nb = float(torch.linalg.norm(bvec))
     conf = 'prec=%s/max_full=%d/local_solver=%d%s' % (case['prec'], case['max_full'], case['ls'], '/band_diagonal=%d' % case['band'] if case.get('band', -1) >= 0 else '')
     key = 'amen_solve/%s/%s' % (case['cls'], conf)
+    if case['rhs'] == 'zero-mean-factor':
+        ctx.count('rhs:orthogonal-to-default-guess')
     what = 'amen_solve %s N=%s rA=%s rb=%s cond2=%.1f eps=%.2e %s x0=%s rhs=%s seed-index %d' % (case['cls'], N, [int(r) for r in A.R], [int(r) for r in b.R], cond, eps, conf, case['x0'], case['rhs'], case['sidx'])
     names = ['_iterative_solvers:gmres_restart', '_iterative_solvers:BiCGSTAB_reset', 'solvers:_LinearOp.apply_prec', 'solvers:_LinearOp.matvec']
     before = hooks.reach_counts(names)
